@@ -45,7 +45,7 @@ enum Kind {
     While { cond_end: usize, body: Rng },
     For { expr: Rng, body: Rng },
     Loop { kw_end: usize, body: Rng },
-    If { then: Rng, els: Option<Rng> },
+    If { cond: Rng, then: Rng, els: Option<Rng> },
     Match { arms: Vec<Rng> },
     Let { name: Option<String> },
     Stmt,
@@ -109,7 +109,7 @@ impl<'ast, 's> Visit<'ast> for Collect<'s> {
     }
     fn visit_expr_if(&mut self, n: &'ast syn::ExprIf) {
         let els = n.else_branch.as_ref().map(|(_, e)| rng(&**e));
-        self.push(Kind::If { then: rng(&n.then_branch), els }, rng(n));
+        self.push(Kind::If { cond: rng(&*n.cond), then: rng(&n.then_branch), els }, rng(n));
         visit::visit_expr_if(self, n);
     }
     fn visit_expr_match(&mut self, n: &'ast syn::ExprMatch) {
@@ -389,8 +389,14 @@ fn parse_fn_ord(s: &str, prefix: &str) -> Option<(String, usize)> {
     Some((arg, n))
 }
 
-/// Resolve an anchor path to a byte offset in the source file.
-fn resolve_anchor(loc: &Located, path: &str, what: &str) -> usize {
+enum Res {
+    Off(usize),
+    Node(Node),
+}
+
+/// Resolve an anchor path: to a byte offset if it ends in a terminal (begin/end/before/after/start/stop),
+/// else to the node it selects.  Err = some element was not found.
+fn resolve(loc: &Located, path: &str, what: &str) -> Result<Res, String> {
     let body = match loc.block {
         Some(b) => rng(b),
         None => die(&format!("{what}: anchor `{path}` on an item without a body")),
@@ -401,10 +407,32 @@ fn resolve_anchor(loc: &Located, path: &str, what: &str) -> usize {
     let parts: Vec<&str> = path.split('/').collect();
     for (i, p) in parts.iter().enumerate() {
         let last = i + 1 == parts.len();
-        let fail = || -> ! { die(&format!("{what}: anchor `{path}`: element `{p}` not found")) };
-        if let Some(n) = parse_ord(p, "loop") {
-            let v = within(&loc.nodes, scope, &|k| matches!(k, Kind::While { .. } | Kind::For { .. } | Kind::Loop { .. }));
-            let nd = *v.get(n).unwrap_or_else(|| fail());
+        macro_rules! nf {
+            () => {
+                return Err(format!("{what}: anchor `{path}`: element `{p}` not found"))
+            };
+        }
+        let loop_kind = if parse_ord(p, "loop").is_some() {
+            Some(("loop", 0))
+        } else if parse_ord(p, "for").is_some() {
+            Some(("for", 1))
+        } else if parse_ord(p, "while").is_some() {
+            Some(("while", 2))
+        } else {
+            None
+        };
+        if let Some((pre, kind)) = loop_kind {
+            let n = parse_ord(p, pre).unwrap();
+            let v = within(&loc.nodes, scope, &|k| match k {
+                Kind::While { .. } => kind == 0 || kind == 2,
+                Kind::For { .. } => kind == 0 || kind == 1,
+                Kind::Loop { .. } => kind == 0,
+                _ => false,
+            });
+            let nd = match v.get(n) {
+                Some(x) => *x,
+                None => nf!(),
+            };
             scope = match &nd.kind {
                 Kind::While { body, .. } | Kind::For { body, .. } | Kind::Loop { body, .. } => *body,
                 _ => unreachable!(),
@@ -413,27 +441,57 @@ fn resolve_anchor(loc: &Located, path: &str, what: &str) -> usize {
             cur = Some(nd.clone());
         } else if let Some(n) = parse_ord(p, "if") {
             let v = within(&loc.nodes, scope, &|k| matches!(k, Kind::If { .. }));
-            let nd = *v.get(n).unwrap_or_else(|| fail());
+            let nd = match v.get(n) {
+                Some(x) => *x,
+                None => nf!(),
+            };
+            scope = nd.r;
+            cur_stmt = enclosing_stmt(&loc.nodes, nd.r);
+            cur = Some(nd.clone());
+        } else if let Some((name, n)) = parse_fn_ord(p, "ifcall") {
+            // the n-th `if` in scope whose condition calls `name`
+            let calls: Vec<Rng> = loc.nodes.iter().filter(|x| matches!(&x.kind, Kind::Call { name: c } if *c == name)).map(|x| x.r).collect();
+            let v = within(&loc.nodes, scope, &|k| match k {
+                Kind::If { cond, .. } => calls.iter().any(|c| cond.contains(c)),
+                _ => false,
+            });
+            let nd = match v.get(n) {
+                Some(x) => *x,
+                None => nf!(),
+            };
             scope = nd.r;
             cur_stmt = enclosing_stmt(&loc.nodes, nd.r);
             cur = Some(nd.clone());
         } else if *p == "then" || *p == "else" {
             match &cur {
-                Some(Node { kind: Kind::If { then, els }, .. }) => {
-                    scope = if *p == "then" { *then } else { els.unwrap_or_else(|| fail()) };
+                Some(Node { kind: Kind::If { then, els, .. }, .. }) => {
+                    scope = if *p == "then" {
+                        *then
+                    } else {
+                        match els {
+                            Some(e) => *e,
+                            None => nf!(),
+                        }
+                    };
                     cur = Some(Node { kind: Kind::Block, r: scope });
                 }
-                _ => fail(),
+                _ => nf!(),
             }
         } else if let Some(n) = parse_ord(p, "match") {
             let v = within(&loc.nodes, scope, &|k| matches!(k, Kind::Match { .. }));
-            let nd = *v.get(n).unwrap_or_else(|| fail());
+            let nd = match v.get(n) {
+                Some(x) => *x,
+                None => nf!(),
+            };
             scope = nd.r;
             cur_stmt = enclosing_stmt(&loc.nodes, nd.r);
             cur = Some(nd.clone());
         } else if let Some(n) = parse_ord(p, "closure") {
             let v = within(&loc.nodes, scope, &|k| matches!(k, Kind::Closure { .. }));
-            let nd = *v.get(n).unwrap_or_else(|| fail());
+            let nd = match v.get(n) {
+                Some(x) => *x,
+                None => nf!(),
+            };
             scope = match &nd.kind {
                 Kind::Closure { body } => *body,
                 _ => unreachable!(),
@@ -443,25 +501,37 @@ fn resolve_anchor(loc: &Located, path: &str, what: &str) -> usize {
         } else if let Some(n) = parse_ord(p, "arm") {
             match &cur {
                 Some(Node { kind: Kind::Match { arms }, .. }) => {
-                    scope = *arms.get(n).unwrap_or_else(|| fail());
+                    scope = match arms.get(n) {
+                        Some(x) => *x,
+                        None => nf!(),
+                    };
                     cur = Some(Node { kind: Kind::Block, r: scope });
                 }
-                _ => fail(),
+                _ => nf!(),
             }
         } else if let Some((name, n)) = parse_fn_ord(p, "let") {
             let v = within(&loc.nodes, scope, &|k| matches!(k, Kind::Let { name: Some(x) } if *x == name));
-            let nd = *v.get(n).unwrap_or_else(|| fail());
+            let nd = match v.get(n) {
+                Some(x) => *x,
+                None => nf!(),
+            };
             cur_stmt = Some(nd.r);
             cur = Some(nd.clone());
         } else if let Some((name, n)) = parse_fn_ord(p, "call") {
             let v = within(&loc.nodes, scope, &|k| matches!(k, Kind::Call { name: x } if *x == name));
-            let nd = *v.get(n).unwrap_or_else(|| fail());
+            let nd = match v.get(n) {
+                Some(x) => *x,
+                None => nf!(),
+            };
             cur_stmt = enclosing_stmt(&loc.nodes, nd.r);
             cur = Some(nd.clone());
         } else if let Some((lhs, n)) = parse_fn_ord(p, "assign") {
             let want = norm(&lhs);
             let v = within(&loc.nodes, scope, &|k| matches!(k, Kind::Assign { lhs: x } if *x == want));
-            let nd = *v.get(n).unwrap_or_else(|| fail());
+            let nd = match v.get(n) {
+                Some(x) => *x,
+                None => nf!(),
+            };
             cur_stmt = enclosing_stmt(&loc.nodes, nd.r);
             cur = Some(nd.clone());
         } else if *p == "begin" && last {
@@ -469,25 +539,49 @@ fn resolve_anchor(loc: &Located, path: &str, what: &str) -> usize {
             if loc_text_byte(loc, scope.lo) != b'{' {
                 die(&format!("{what}: anchor `{path}`: `begin` on a non-block scope"));
             }
-            return scope.lo + 1;
+            return Ok(Res::Off(scope.lo + 1));
         } else if *p == "end" && last {
             if loc_text_byte(loc, scope.hi - 1) != b'}' {
                 die(&format!("{what}: anchor `{path}`: `end` on a non-block scope"));
             }
-            return scope.hi - 1;
+            return Ok(Res::Off(scope.hi - 1));
         } else if *p == "start" && last {
-            return cur.as_ref().unwrap_or_else(|| fail()).r.lo;
+            match &cur {
+                Some(c) => return Ok(Res::Off(c.r.lo)),
+                None => nf!(),
+            }
         } else if *p == "stop" && last {
-            return cur.as_ref().unwrap_or_else(|| fail()).r.hi;
+            match &cur {
+                Some(c) => return Ok(Res::Off(c.r.hi)),
+                None => nf!(),
+            }
         } else if *p == "before" && last {
-            return cur_stmt.unwrap_or_else(|| fail()).lo;
+            match cur_stmt {
+                Some(c) => return Ok(Res::Off(c.lo)),
+                None => nf!(),
+            }
         } else if *p == "after" && last {
-            return cur_stmt.unwrap_or_else(|| fail()).hi;
+            match cur_stmt {
+                Some(c) => return Ok(Res::Off(c.hi)),
+                None => nf!(),
+            }
         } else {
             die(&format!("{what}: anchor `{path}`: unknown element `{p}`"));
         }
     }
-    die(&format!("{what}: anchor `{path}` has no terminal (begin/end/before/after)"));
+    match cur {
+        Some(n) => Ok(Res::Node(n)),
+        None => die(&format!("{what}: empty anchor `{path}`")),
+    }
+}
+
+/// Resolve an anchor path to a byte offset in the source file (exit 2 if not found).
+fn resolve_anchor(loc: &Located, path: &str, what: &str) -> usize {
+    match resolve(loc, path, what) {
+        Ok(Res::Off(o)) => o,
+        Ok(Res::Node(_)) => die(&format!("{what}: anchor `{path}` has no terminal (begin/end/before/after/start/stop)")),
+        Err(e) => die(&e),
+    }
 }
 
 thread_local! { static CUR_TEXT: std::cell::RefCell<String> = std::cell::RefCell::new(String::new()); }
@@ -504,8 +598,8 @@ struct ItemSpec {
     line: usize,
     ret: Option<String>,
     contract: Option<String>,
-    loops: Vec<(usize, String)>,
-    forghost: Vec<(usize, String)>,
+    loops: Vec<(String, String)>,
+    forghost: Vec<(String, String)>,
     ats: Vec<(String, String)>,
     external_body: bool,
     sigonly: bool,
@@ -672,13 +766,13 @@ fn parse_unit(text: &str, what: &str) -> Vec<Cmd> {
             }
             "loop" => {
                 let mut p = rest.splitn(2, char::is_whitespace);
-                let n: usize = p.next().and_then(|x| x.parse().ok()).unwrap_or_else(|| die(&format!("{what}:{}: loop N", i + 1)));
+                let n: String = p.next().map(|x| x.to_string()).unwrap_or_else(|| die(&format!("{what}:{}: loop N|path", i + 1)));
                 let b = block(&lines, &mut i, p.next().unwrap_or(""), what);
                 cur_item(&mut cmds, what, i, word).loops.push((n, b));
             }
             "forghost" => {
                 let mut p = rest.split_whitespace();
-                let n: usize = p.next().and_then(|x| x.parse().ok()).unwrap_or_else(|| die(&format!("{what}:{}: forghost N NAME", i + 1)));
+                let n: String = p.next().map(|x| x.to_string()).unwrap_or_else(|| die(&format!("{what}:{}: forghost N|path NAME", i + 1)));
                 let name = p.next().unwrap_or_else(|| die(&format!("{what}:{}: forghost N NAME", i + 1))).to_string();
                 cur_item(&mut cmds, what, i, word).forghost.push((n, name));
             }
@@ -1112,26 +1206,63 @@ fn emit_item(
             } else {
                 within(&loc.nodes, scope, &|k| matches!(k, Kind::While { .. } | Kind::For { .. } | Kind::Loop { .. }))
             };
+            // a loop is addressed by its ordinal in the emitted region, or by a structural path
+            // (`loop2/while0`); a leading `?` makes the directive optional (skipped if the path does not exist)
+            let find_loop = |key: &str| -> Option<Node> {
+                let (opt, k) = match key.strip_prefix('?') {
+                    Some(r) => (true, r),
+                    None => (false, key),
+                };
+                if let Ok(n) = k.parse::<usize>() {
+                    match loops.get(n) {
+                        Some(x) => Some((*x).clone()),
+                        None if opt => None,
+                        None => die(&format!("{what}: loop {n} not found ({} loops)", loops.len())),
+                    }
+                } else {
+                    match resolve(loc, k, what) {
+                        Ok(Res::Node(nd)) if matches!(nd.kind, Kind::While { .. } | Kind::For { .. } | Kind::Loop { .. }) => Some(nd),
+                        Ok(_) => die(&format!("{what}: `{k}` does not select a loop")),
+                        Err(_) if opt => None,
+                        Err(e) => die(&e),
+                    }
+                }
+            };
             for (n, txt) in &spec.loops {
-                let nd = loops.get(*n).unwrap_or_else(|| die(&format!("{what}: loop {n} not found ({} loops)", loops.len())));
-                let (pos, _) = match &nd.kind {
-                    Kind::While { cond_end, body } => (*cond_end, *body),
-                    Kind::For { expr, body } => (expr.hi, *body),
-                    Kind::Loop { kw_end, body } => (*kw_end, *body),
+                let nd = match find_loop(n) {
+                    Some(x) => x,
+                    None => continue,
+                };
+                let pos = match &nd.kind {
+                    Kind::While { cond_end, .. } => *cond_end,
+                    Kind::For { expr, .. } => expr.hi,
+                    Kind::Loop { kw_end, .. } => *kw_end,
                     _ => unreachable!(),
                 };
-                add(&mut edits, pos, pos, format!("\n{}\n", txt.trim_end()), "R5-loop", Some(format!("{fname}.loop{n}")));
+                add(&mut edits, pos, pos, format!("\n{}\n", txt.trim_end()), "R5-loop", Some(format!("{fname}.loop[{}]", n.trim_start_matches('?'))));
             }
             for (n, name) in &spec.forghost {
-                let nd = loops.get(*n).unwrap_or_else(|| die(&format!("{what}: forghost loop {n} not found")));
+                let nd = match find_loop(n) {
+                    Some(x) => x,
+                    None => continue,
+                };
                 match &nd.kind {
                     Kind::For { expr, .. } => add(&mut edits, expr.lo, expr.lo, format!("{name}: "), "R5-forghost", None),
                     _ => die(&format!("{what}: forghost {n}: not a for loop")),
                 }
             }
             for (a, txt) in &spec.ats {
-                let pos = resolve_anchor(loc, a, what);
-                add(&mut edits, pos, pos, format!("\n{}\n", txt.trim_end()), "R5-at", Some(format!("{fname}.at:{a}")));
+                let (opt, ap) = match a.strip_prefix('?') {
+                    Some(r) => (true, r),
+                    None => (false, a.as_str()),
+                };
+                let pos = match resolve(loc, ap, what) {
+                    Ok(Res::Off(o)) => o,
+                    Ok(Res::Node(_)) => die(&format!("{what}: anchor `{ap}` has no terminal")),
+                    Err(_) if opt => continue,
+                    Err(e) => die(&e),
+                };
+                add(&mut edits, pos, pos, format!("\n{}\n", txt.trim_end()), "R5-at", Some(format!("{fname}.at:{ap}")));
             }
         } else if !spec.loops.is_empty() || !spec.ats.is_empty() {
             die(&format!("{what}: loop/at on an item without body"));
